@@ -1283,6 +1283,24 @@ func (s *verifC14Suite) TestVerifC14(c *C) {
 		c14Finish(r, "replay of one stored path")
 	}
 
+	if os.Getenv("VERIF_C14_BENCH") != "" { // calibration aid: cost of a fixture and of a request
+		t0 := time.Now()
+		for i := 0; i < 100; i++ {
+			w := c14New(c, menu)
+			w.close()
+		}
+		t1 := time.Now()
+		for i := 0; i < 100; i++ {
+			w := c14New(c, menu)
+			w.apply(c14Step{K: "req", Op: "update(A)"})
+			w.apply(c14Step{K: "req", Op: "install(C)"})
+			w.apply(c14Step{K: "req", Op: "connect(A,B)"})
+			w.close()
+		}
+		fmt.Printf("C14 bench: fixture %v, fixture+3 requests %v\n", t1.Sub(t0)/100, time.Since(t1)/100)
+		r.Add("evaluations", 1)
+		c14Finish(r, "bench")
+	}
 	depth := r.Pick(3, 4)
 	r.Info("bounds", map[string]interface{}{"max_requests_per_sequence": depth, "requests_in_menu": len(ops), "progress_events": x.events,
 		"pre_existing_change_kinds": c14PreKinds, "snaps": []string{c14A, c14B, c14C, c14D, c14I, c14Snapd}})
